@@ -76,7 +76,7 @@ def expand(features=(), no_default=False, release=False):
     # drop stale cache entries (keep the cache bounded)
     olds = sorted((f for f in os.listdir(CACHE) if f.startswith('expanded-')),
                   key=lambda f: os.path.getmtime(os.path.join(CACHE, f)))
-    for f in olds[:-12]:
+    for f in olds[:-24]:
         try:
             os.remove(os.path.join(CACHE, f))
         except OSError:
@@ -110,6 +110,7 @@ class FnSpec:
         self.impl_match = None
         self.may_fail = []
         self.no_panic_when = None
+        self.ptr_model = []        # R17: (array expression, element type, [pointer names])
         self.concrete_ret = None   # R14: `-> impl '_ + Traits` -> the concrete type the body constructs
         self.opens = None
         self.returns = None
@@ -264,7 +265,7 @@ def parse_contract_file(path, unit=None, seen=None):
             continue
         st = ln.strip()
         m = re.match(r'^(ret|requires|ensures|decreases|loop|invariant|invariant_except_break|loop_ensures|at_start|at_end|after_loop|before_loop|loop_body_start|loop_body_end|at|attr|tags|as_inherent|'
-                     r'external_body|no_body|loop_hint|subst|impl_match|returns|opens|debug_assert_may_fail|concrete_ret|no_panic_when)\b\s*(.*)$', st)
+                     r'external_body|no_body|loop_hint|subst|impl_match|returns|opens|debug_assert_may_fail|concrete_ret|no_panic_when|ptr_model)\b\s*(.*)$', st)
         indent = len(ln) - len(ln.lstrip())
         if m and indent <= 4 or (m and m.group(1) in ('invariant', 'invariant_except_break', 'loop_ensures', 'decreases') and indent <= 8 and cur_clause is None):
             kw, rest = m.group(1), m.group(2)
@@ -347,6 +348,11 @@ def parse_contract_file(path, unit=None, seen=None):
                 cur_fn.may_fail.append(rest.strip().strip('"'))
             elif kw == 'concrete_ret':
                 cur_fn.concrete_ret = rest.strip()
+            elif kw == 'ptr_model':
+                mm = re.match(r'^(\S+)\s+\[(\S+)\]\s*:\s*(.+)$', rest)
+                if not mm:
+                    raise Undecided('%s:%d: bad ptr_model (want: ptr_model <array-expr> [<ElemType>] : p1 p2 ...)' % (path, i))
+                cur_fn.ptr_model.append((mm.group(1), mm.group(2), mm.group(3).split()))
             elif kw == 'no_panic_when':
                 tg, tx = _tags(rest)
                 cur_fn.no_panic_when = [tg, tx]
@@ -853,6 +859,12 @@ class FnAsm:
             body, c2 = re.subn(r'\b%s\.as_ref\(\)' % re.escape(nm), nm, body)
             self.log.append('R11: dropped %d `let %s = %s.as_ref();`, replaced %d inline `%s.as_ref()`' % (c1, nm, nm, c2, nm))
         if sp:
+            for arr, elem, names in sp.ptr_model:
+                try:
+                    body, plog = rules.ptr_model(body, arr, elem, names)
+                except rules.RuleError as e:
+                    raise Undecided('%s: %s' % (self.qual, e))
+                self.log += plog
             for rx, rep, reason in sp.subst:
                 body2, cnt = re.subn(rx, rep, body)
                 if cnt == 0:
@@ -1191,6 +1203,17 @@ pub fn verif_panic_outside(dom: Ghost<bool>) -> !
 '''
 
 
+PTR_HELPER = '''
+/// R17 (pointer-into-one-array model, TRUSTED ptr_index_model): `p.add(n)` for a raw pointer p derived from
+/// `arr.as_mut_ptr()`, with p modelled as its element index.  Safety condition of `<*mut T>::add`: the result stays inside
+/// the allocation or one past its end.
+pub fn verif_ptr_add(p: usize, n: usize, len: usize) -> (r: usize)
+    requires p + n <= len,
+    ensures r == p + n,
+{ p + n }
+'''
+
+
 DEGRADE = [True]
 DETACH_REASONS = {}
 
@@ -1273,6 +1296,8 @@ def assemble(unit, src, detach=None):
     out.emit('pub mod vspec {\n#[allow(unused_imports)] use vstd::prelude::*;\n#[allow(unused_imports)] use super::*;\n')
     out.emit(PRELUDE_HELPERS, {'kind': 'assumption', 'fn': 'vspec::verif_panic', 'tags': [],
                                'text': 'external_body verif_panic/verif_debug_panic (intended / forbidden panic)'})
+    if any(fs.ptr_model for ms in unit.mods.values() for fs in ms.fns):
+        out.emit(PTR_HELPER, {'kind': 'assumption', 'fn': 'vspec::verif_ptr_add', 'tags': [], 'text': 'R17 pointer-as-index model'})
     for blk, origin in unit.prelude:
         out.emit('// ---- prelude from %s\n' % origin)
         out.emit(blk + '\n', {'kind': 'spec', 'fn': 'vspec', 'tags': [], 'text': origin})
